@@ -11,6 +11,8 @@
 (*    F  in(..) whose arguments are operator chains with 1..2 binary operators (first, second, third argument, *)
 (*       negated, inside &&) - the engine re-associates function arguments separately;                          *)
 (*    L  len($) as an operand inside arithmetic chains under a comparison (str and slice fields);               *)
+(*    P  z * (a / z') and z * (a % z') (both factor orders) where z, z' are 0 for some field value ($, $-1, 1-$,   *)
+(*       len($), 0): 0 * NaN = NaN under every comparison operator, and bare;                                   *)
 (*    D  (x arith y) cmp z for every arithmetic operator and numeric leaf incl. 0, 0.5, -1, $; *)
 (*    K  the minimal cases of the known findings.                                        *)
 (*    Each tree is printed twice: minimal parentheses and a redundant style; the spacing *)
@@ -23,7 +25,7 @@
 (*  and haz are informative copies - the trace specification recomputes them.             *)
 EXTENDS TagExpr, Json, IOUtils, SequencesExt
 
-CONSTANTS GenMode, GenCfgName, GenDepth, GenChainCfgName, GenChainOps, GenFuncCfgName, GenLenOps, GenPtr, SimMinDepth, SimMaxDepth
+CONSTANTS GenMode, GenCfgName, GenDepth, GenChainCfgName, GenChainOps, GenFuncCfgName, GenLenOps, GenProdFull, GenPtr, SimMinDepth, SimMaxDepth
 
 \* operator / leaf alphabets of the exhaustive sets (TagExpr!SmallCfg and FullCfg are the walker's)
 C1Cfg == [num |-> {2 * Scale}, str |-> {"a"}, bool |-> {TRUE}, arith |-> {"*", "+", "-"}, rel |-> {"<"},
@@ -58,6 +60,8 @@ ZPairs == UNION {Pairs(UNION {BZ(k, m, GenChainCfg) : m \in 1 .. GenChainOps}, T
 GenFuncCfg == CfgOf(GenFuncCfgName)
 FPairs == UNION {Pairs(FTrees(k, 2, GenFuncCfg), TVals(k)) : k \in Sorts}
 LPairs == UNION {Pairs(LTrees(GenLenOps, GenFuncCfg), TVals(k)) : k \in {"str", "slice"}}
+\* P: zero * NaN products (TagExpr!PTrees) for numeric, string and slice fields
+PPairs == UNION {Pairs(PTrees(k, GenProdFull), TVals(k)) : k \in {"num", "str", "slice"}}
 \* D: every arithmetic operator applied to every pair of numeric leaves (0, fractions, negatives, $), compared with
 \*    a third leaf: division / remainder by zero, NaN in comparisons, remainder of negatives and fractions
 DLeaves == {Num(0), Num(Scale), Num(2 * Scale), Num(32), Num(0 - Scale), Fld}
@@ -68,7 +72,7 @@ KPairs == {<<Bin("==", Bin("%", Fld, Num(32)), Num(0)), FV("int", Scale, "", FAL
            <<Bin("==", Fld, Fld), FV("slice", 0, "", FALSE)>>,
            <<In(<<Fld, Fld>>), FV("slice", 0, "", FALSE)>>}
 
-AllPairs == SetToSeq(UPairs \cup TPairs \cup ZPairs \cup FPairs \cup LPairs \cup DPairs \cup KPairs)
+AllPairs == SetToSeq(UPairs \cup TPairs \cup ZPairs \cup FPairs \cup LPairs \cup PPairs \cup DPairs \cup KPairs)
 
 \* (LET-bound so that TLC evaluates the pair sequence once)
 Cases == LET S == AllPairs
